@@ -7,7 +7,8 @@
 //            virtual root /v (an include is written  #include "/v/<name>" ); the text itself is the main
 //            file /v/m.sqf
 // stdout, one line per case:  <route>=<result> \t <route>=<result> ...
-//   result = <class>|<codes>|<payload>|<ms>[|NONDET:<class>|<codes>|<payload>]
+//   result = <class>|<codes>|<payload>|<ms>|<kb>[|NONDET:<class>|<codes>|<payload>]
+//   ms     = wall time of the first of the two runs; kb = rise of the child's peak resident memory over both runs
 //   class  = SOME | NONE        (result returned / no result)
 //   codes  = comma separated level:code of every diagnostic of level warning or worse ('-' if none)
 //   payload: see each route; <n>.<fnv64> is the length and FNV-1a hash of a canonical listing, the listing
@@ -244,12 +245,19 @@ int main(int argc, char** argv)
             }
         { std::ofstream o(dir / "m.sqf", std::ios::binary); o.write(text.data(), (std::streamsize)text.size()); }
         auto one = [&](const std::string& r) -> std::string {
+            // peak resident memory of this child before and after the route: the high-water mark only rises, so the
+            // difference is what this route needed beyond everything that ran before it in the child (a case of the
+            // scaling family has one route, its difference is the route's own peak)
+            struct rusage ru0, ru1;
+            getrusage(RUSAGE_SELF, &ru0);
             auto t0 = std::chrono::steady_clock::now();
             std::string a = route(r, text, vm1, cx);
             auto t1 = std::chrono::steady_clock::now();
             std::string b = route(r, text, vm2, cx);
+            getrusage(RUSAGE_SELF, &ru1);
             long ms = (long)std::chrono::duration_cast<std::chrono::milliseconds>(t1 - t0).count();
-            std::string res = r + "=" + a + "|" + std::to_string(ms);
+            long kb = ru1.ru_maxrss - ru0.ru_maxrss;
+            std::string res = r + "=" + a + "|" + std::to_string(ms) + "|" + std::to_string(kb);
             if (a != b) res += "|NONDET:" + b;
             return res;
         };
